@@ -82,24 +82,23 @@
               element-list))
   bag)
 
-(define bag-search!
-  (let ((not-found (list 'not-found)))
-    (lambda (bag element failure success)
-      (let ((elt (hash-table-ref/default (bag-table bag) element not-found)))
-        (if (eq? elt not-found)
-            (failure (lambda (obj)
-                       (hash-table-set! (bag-table bag) element 1)
-                       (values bag obj))
-                     (lambda (obj)
-                       (values bag obj)))
-            (success elt
-                     (lambda (new-element obj)
-                       (hash-table-delete! (bag-table bag) element)
-                       (bag-adjoin! bag new-element)
-                       (values bag obj))
-                     (lambda (obj)
-                       (hash-table-delete! (bag-table bag) element)
-                       (values bag obj))))))))
+(define (bag-search! bag element failure success)
+  ;; the cell holds the matching element of the bag and its count
+  (let ((cell (hash-table-cell (bag-table bag) element #f)))
+    (if (not cell)
+        (failure (lambda (obj)
+                   (hash-table-set! (bag-table bag) element 1)
+                   (values bag obj))
+                 (lambda (obj)
+                   (values bag obj)))
+        (success (car cell)
+                 (lambda (new-element obj)
+                   (hash-table-delete! (bag-table bag) element)
+                   (bag-adjoin! bag new-element)
+                   (values bag obj))
+                 (lambda (obj)
+                   (hash-table-delete! (bag-table bag) element)
+                   (values bag obj))))))
 
 (define (bag-size bag)
   (hash-table-fold (bag-table bag) (lambda (elt count acc) (+ count acc)) 0))
